@@ -26,7 +26,7 @@ func fmtPackagesLock() *format {
 			{name: "eol", labels: eolLabels},
 			{name: "trail", labels: trailLabels},
 			{name: "indent", labels: []string{"2-spaces", "compact"}},
-			{name: "extras", labels: []string{"minimal", "type-requested-hash-deps"}},
+			{name: "extras", labels: []string{"minimal", "type-requested-hash-deps", "unrelated-fields-in-every-json-shape"}},
 			{name: "top", labels: []string{"version-first", "version-last"}},
 			{name: "frameworks", labels: []string{"one", "two"}},
 		},
@@ -58,6 +58,9 @@ func fmtPackagesLock() *format {
 				e = append(e, jkv{"resolved", r.Version},
 					jkv{"contentHash", "HrC5BXdl00IP9zeV+0Z848QWPAoCr9P3bDEZguI+gkLcBKAOxix/tLEAAHC+UvDNPv4a2d18lOReHMOagPa+zQ=="},
 					jkv{"dependencies", jo{{"Not.A.Package", "9.9.9"}}})
+			}
+			if l.get("extras") == 2 {
+				e = withOdd(append(jo{{"type", "Transitive"}}, e...), i)
 			}
 			// first framework (round robin start) that does not hold this id yet; a new one if all do
 			placed := false
